@@ -7,6 +7,7 @@ import (
 	"go/token"
 	"go/types"
 	"os"
+	"regexp"
 	"sort"
 	"strings"
 
@@ -456,7 +457,7 @@ func (vc *VC) applyContractFull(st *State, spec *FuncSpec, names []string, args 
 		if err != nil {
 			panic(execErr(fmt.Sprintf("requires of %s at call: %v", spec.Name, err)))
 		}
-		vc.oblige("call-pre", label+": "+spec.Name+"."+c.label(), vc.nopanicProps(), guard, s, "precondition of "+spec.Name+": "+c.Text, pos)
+		vc.oblige("call-pre", label+": "+spec.Name+"."+c.label(), unionProps(vc.nopanicProps(), c.Props), guard, s, "precondition of "+spec.Name+": "+c.Text, pos)
 	}
 	if recursive {
 		for _, c := range spec.clauses("decreases") {
@@ -1233,7 +1234,7 @@ func (vc *VC) rangeFuncCall(st *State, v *ssa.Call, seq Term, mc *ssa.MakeClosur
 			switch {
 			case t.idx == "":
 				vc.havoc(s, t.name, t.sort)
-			case strings.Contains(t.idx, "(select cell_") || strings.Contains(t.idx, "(select F_"):
+			case rfDynamicIndex(t.idx, targets):
 				dynamic = append(dynamic, t)
 			default:
 				parts := splitSortArgs(t.sort)
@@ -1286,7 +1287,7 @@ func (vc *VC) rangeFuncCall(st *State, v *ssa.Call, seq Term, mc *ssa.MakeClosur
 		}
 		targets, _, _ := vc.modifiesTargets3(ysp, menv)
 		for _, t := range targets {
-			if t.idx != "" && (strings.Contains(t.idx, "(select cell_") || strings.Contains(t.idx, "(select F_")) && strings.HasPrefix(t.sort, "(Array Int ") {
+			if t.idx != "" && rfDynamicIndex(t.idx, targets) && strings.HasPrefix(t.sort, "(Array Int ") {
 				vc.oblige(kind+".frame", t.name, vc.nopanicProps(), stepGuard, or(sx("=", t.idx, "0"), not(sx(existed, t.idx))),
 					"the loop body writes "+t.name+" through its captured variables only in objects created since the range statement started", pos)
 			}
@@ -1313,6 +1314,33 @@ func (vc *VC) rangeFuncCall(st *State, v *ssa.Call, seq Term, mc *ssa.MakeClosur
 	merged := vc.merge([]parentEdge{{and(guard, early), step}, {doneGuard, done}})
 	merged.defers = st.defers
 	*st = *merged
+}
+
+// rfDynamicIndex: does the index of a frame item of a loop body depend on something the body itself may
+// write (the slice a captured variable holds, a field of an object)?  Then earlier iterations may have moved
+// it and the item is treated through the dynamic frame.  An index read from a captured variable the body
+// never assigns (its cell is not in the body's frame) names the same object in every iteration.
+var rfCellRead = regexp.MustCompile(`\(select (cell_[A-Za-z0-9_]+)[@!][A-Za-z0-9_!@]* ([^() ]+)\)`)
+
+func rfDynamicIndex(idx string, targets []modTarget) bool {
+	if strings.Contains(idx, "(select F_") {
+		return true
+	}
+	if !strings.Contains(idx, "(select cell_") {
+		return false
+	}
+	ms := rfCellRead.FindAllStringSubmatch(idx, -1)
+	if len(ms) != strings.Count(idx, "(select cell_") {
+		return true
+	}
+	for _, m := range ms {
+		for _, t := range targets {
+			if t.name == m[1] && (t.idx == "" || t.idx == m[2]) {
+				return true
+			}
+		}
+	}
+	return false
 }
 
 // existedBeforeCall: when the callee's contract speaks of fresh()/isold(), these refer to the moment of
